@@ -238,10 +238,17 @@ func ArgString(a *model.Arg) string {
 // joined by single spaces); used for the AutoVar "argument at position" rule.
 func PlainArg(a *model.Arg) string { return strings.Join(a.Toks, " ") }
 
-func RenderCmd(c *model.Cmd) trace.Event {
+func RenderCmd(c *model.Cmd) trace.Event { return RenderCmdIn(nil, c) }
+
+// RenderCmdIn renders a command event with the constants of f expanded in its plain arguments.
+func RenderCmdIn(f *model.File, c *model.Cmd) trace.Event {
 	parts := make([]string, len(c.Args))
 	for i := range c.Args {
-		parts[i] = ArgString(&c.Args[i])
+		if f != nil && c.Args[i].Kind == model.ArgPlain {
+			parts[i] = env.Canon(f.Sub(strings.Join(c.Args[i].Toks, " ")))
+		} else {
+			parts[i] = ArgString(&c.Args[i])
+		}
 	}
 	return trace.Event{Name: c.Name, Args: strings.Join(parts, ",")}
 }
@@ -274,7 +281,7 @@ func (m *machine) probe(name string) {
 }
 
 func (m *machine) event(c *model.Cmd) {
-	m.tr.Events = append(m.tr.Events, RenderCmd(c))
+	m.tr.Events = append(m.tr.Events, RenderCmdIn(m.p.file, c))
 	m.epoch++
 	m.seen = map[string]bool{}
 }
@@ -321,9 +328,9 @@ func (m *machine) leaf(l *model.Leaf) bool {
 	case model.LFlag, model.LDefeated:
 		var set bool
 		if l.Kind == model.LFlag {
-			set = m.env.Flag(m.epoch, l.Name)
+			set = m.env.Flag(m.epoch, m.p.file.Sub(l.Name))
 		} else {
-			set = m.env.Trainer(m.epoch, l.Name)
+			set = m.env.Trainer(m.epoch, m.p.file.Sub(l.Name))
 		}
 		switch l.Form {
 		case model.FBare:
@@ -337,7 +344,7 @@ func (m *machine) leaf(l *model.Leaf) bool {
 		}
 		return set != want
 	}
-	name := l.Name
+	name := m.p.file.Sub(l.Name)
 	if l.Kind == model.LAuto {
 		// An AutoVar leaf behaves as if its command were executed immediately before
 		// comparing its result var (C11).
@@ -352,14 +359,14 @@ func (m *machine) leaf(l *model.Leaf) bool {
 	case model.FNot:
 		return v == m.env.Operand(m.epoch, "0", false)
 	}
-	c := env.Cmp(v, m.env.Operand(m.epoch, l.Val, l.Strict))
+	c := env.Cmp(v, m.env.Operand(m.epoch, m.p.file.Sub(l.Val), l.Strict))
 	return env.CondTable[opIndex(l.Op)][c]
 }
 
 func (m *machine) autoVarName(c *model.Cmd) string {
 	av := m.p.autov[c.Name]
 	if av.ArgPos >= 0 {
-		return PlainArg(&c.Args[av.ArgPos])
+		return m.p.file.Sub(PlainArg(&c.Args[av.ArgPos]))
 	}
 	return av.VarName
 }
@@ -423,7 +430,7 @@ func (m *machine) step(n *node) *node {
 			}
 		case "goto":
 			if len(c.Args) == 1 && c.Args[0].Kind == model.ArgPlain {
-				l := ArgString(&c.Args[0])
+				l := env.Canon(m.p.file.Sub(PlainArg(&c.Args[0])))
 				if t, ok := m.p.labels[l]; ok {
 					m.probe("user_goto_internal")
 					if t.loopDepth > n.loopDepth {
@@ -441,7 +448,7 @@ func (m *machine) step(n *node) *node {
 			}
 		case "call":
 			if len(c.Args) == 1 && c.Args[0].Kind == model.ArgPlain {
-				l := ArgString(&c.Args[0])
+				l := env.Canon(m.p.file.Sub(PlainArg(&c.Args[0])))
 				if t, ok := m.p.labels[l]; ok {
 					if len(m.stack) >= m.lim.Stack {
 						return m.finish("overflow")
@@ -501,7 +508,7 @@ func (m *machine) step(n *node) *node {
 		return n.target
 	case nSwitch:
 		sw := n.stmt.Sw
-		name := sw.Var
+		name := m.p.file.Sub(sw.Var)
 		if sw.Auto != nil {
 			m.event(sw.Auto)
 			m.probe("autovar_switch_evaluated")
@@ -510,7 +517,7 @@ func (m *machine) step(n *node) *node {
 		d := m.env.Var(m.epoch, name)
 		sel := -1
 		for i, c := range sw.Cases {
-			if !c.Default && m.env.Operand(m.epoch, c.Value, false) == d {
+			if !c.Default && m.env.Operand(m.epoch, m.p.file.Sub(c.Value), false) == d {
 				sel = i
 				break
 			}
